@@ -247,4 +247,16 @@ def envelope_tables():
     return out
 
 
-EXTRACTORS = {"EnvelopeTables": envelope_tables}
+def multi_reader_consts():
+    t = src("swimos_utilities/swimos_multi_reader/src/reader/mod.rs")
+    one(r"const BUCKET_SIZE: usize = usize::BITS as usize;", t, "BUCKET_SIZE")
+    # the shape the model relies on: the lowest set bit is taken, a delivered stream is re-queued
+    one(r"let index = self\.0\.trailing_zeros\(\) as usize;\s*self\.unset_flag\(index\);", t, "LocalFlags::get_next")
+    one(r"self\.queue_flags\.set_flag\(index\);\s*return Poll::Ready\(Some\(item\)\);", t, "re-queue after an item")
+    return (HEADER + "namespace SwimVerif.Generated\n"
+            "/-- `BUCKET_SIZE = usize::BITS` on the 64-bit targets the harness runs on -/\n"
+            "def multiReaderBucketSize : Nat := 64\n"
+            "end SwimVerif.Generated\n")
+
+
+EXTRACTORS = {"EnvelopeTables": envelope_tables, "MultiReaderConsts": multi_reader_consts}
